@@ -147,7 +147,7 @@ impl MithrilEpochService {
     //@ rewrite /\.await/ => //
     //@ rewrite /signers: &\[Signer\]/ => /signers: &Vec<Signer>/
     //@ rewrite /StdResult<Vec<SignerWithStake>>/ => /Result<Vec<SignerWithStake>, EpochServiceError>/
-    //@ rewrite? /(?s)(?:debug|trace|warn|info)!\(.*?\);[ \t]*\n/ => //
+    //@ rewrite? /(?s)(?:slog::)?(?:debug|info|warn|trace|error)!\(.*?\);[ \t]*\n/ => //
     //@ rewrite /(?s)\.ok_or_else\(\|\| RunnerError::NoValueError\(format!\(.*?\)\)\)\?/ => /.ok_or(EpochServiceError::NotYetInitialized)?/
     //@ rewrite? /(?s)\.ok_or_else\(\|\| RunnerError::NoStakeForSigner\(signer\.party_id\.to_string\(\)\)\)\?/ => /.ok_or(EpochServiceError::NotYetInitialized)?/
     //@ rewrite /let mut signers_with_stake = vec!\[\];/ => /let mut signers_with_stake: Vec<SignerWithStake> = Vec::new();/
@@ -164,7 +164,7 @@ impl MithrilEpochService {
     //@ rewrite /async fn/ => /fn/
     //@ rewrite /\.await/ => //
     //@ rewrite /StdResult<\(\)>/ => /Result<(), EpochServiceError>/
-    //@ rewrite? /(?s)debug!\(.*?\);[ \t]*\n/ => //
+    //@ rewrite? /(?s)(?:slog::)?(?:debug|info|warn|trace|error)!\(.*?\);[ \t]*\n/ => //
     //@ spec ensures ret is Ok ==> ({
     //@ spec     let d = final(self).epoch_data;
     //@ spec     &&& aggregator_signer_registration_epoch.0 >= 1 && d is Some && d->Some_0.epoch == aggregator_signer_registration_epoch
